@@ -14,7 +14,7 @@ CHECKS = {
          "generated start terms (incl. symmetric four-name terms used twice with permuted names) x rule subsets (incl. rules whose right side introduces a binder) x iterations x substitution method x spelling of the rule slots (as written / like existing class parameter slots)",
          "rule pool valid in the model (self-check); wrong e-node missed with probability 5^-8 per class"),
  "C04": ("constructed expectation: planted instance L.sigma.rho inside a context (optionally only present up to equality through balanced pre-unions) must yield R.sigma.rho represented and equal after one apply_rewrites",
-         "generated patterns, substitutions, renamings, contexts and pre-unions within the scope the property states; plus non-linear and permuted left sides over 3-5 slot leaves made symmetric under a generated group (optionally merged with another class), second use permuted by an element of that group, or the permuted leaf two / three levels below a node that anchors one of its slots with the symmetry learnt only through the merge",
+         "generated patterns, substitutions, renamings, contexts and pre-unions within the scope the property states; plus non-linear and permuted left sides over 3-5 slot leaves made symmetric under a generated group (optionally merged with another class), second use permuted by an element of that group, or the permuted leaf two / three levels below a node that anchors one of its slots with the symmetry learnt only through the merge; a left side with a symmetric leaf over two pattern slots must fire in both orientations",
          "an instance that is represented by construction (through the pre-unions) but cannot be looked up is reported; cases where a class has a redundant slot are counted out of scope (as the property states)"),
  "C05": ("validity predicate: every substitution returned by ematch_all / multi_ematch is total, its instance looks up without inserting, multi-pattern equations hold, fingerprint unchanged",
          "random patterns and multi-patterns against reachable e-graphs; pattern slots spelled as written, like existing class parameter slots ($f<n>), $f0.., or numeric",
